@@ -180,6 +180,27 @@ func c06Render(rec *c06Rec, cell c06Cell, raw []byte) *ProgCase {
 	fmt.Fprintf(&d, "func rec%s(n int) int { if n == 0 { return 0 }; y := n; return rec%s(n-1) + y - y + 1 }\n", sfx, sfx)
 	nontrivial := false
 	recycled := false
+	// the address of x is taken in x's own block (depth 1) or inside depth-1 nested blocks that
+	// declare locals of their own (the variable then lives "upn" frames further out)
+	addrOf := func(depth int, ret string) string {
+		s := ret
+		for i := 1; i < depth; i++ {
+			s = fmt.Sprintf("{ y%d := a + %d; sink += y%d; %s }", i, i, i, s)
+		}
+		if depth > 1 {
+			// the function must end in a terminating statement
+			s += "; panic(\"unreachable\")"
+		}
+		return s
+	}
+	retK := "int"
+	switch cell.Ret {
+	case "", "bool", "string", "complex64", "complex128", "named", "int8", "uint8":
+	default:
+		retK = cell.Ret
+	}
+	fmt.Fprintf(&d, "func sum3%s(a, b, c int) %s { return %s(a + b + c) }\n", sfx, retK, retK)
+	fmt.Fprintf(&d, "func ra%s(n int) int { if n == 0 { return 0 }; return int(sum3%s(n, 100, ra%s(n-1))) }\n", sfx, sfx, sfx)
 	var shape strings.Builder
 	for i, op := range rec.Hist {
 		fmt.Fprintf(&shape, "%s.%d.%s.%d.%d;", op.Op, op.S, op.Via, op.D, op.N)
@@ -200,11 +221,11 @@ func c06Render(rec *c06Rec, cell c06Cell, raw []byte) *ProgCase {
 			fmt.Fprintf(&m, "\tP%s[%d] = nil\n", sfx, op.S)
 		case "mkptr":
 			name := fmt.Sprintf("mp%s_%d", sfx, i)
-			fmt.Fprintf(&d, "func %s(a int) *int { x := a; return &x }\n", name)
+			fmt.Fprintf(&d, "func %s(a int) *int { x := a; %s }\n", name, addrOf(op.D, "return &x"))
 			fmt.Fprintf(&m, "\tP%s[%d] = %s(%d)\n\tG%s[%d] = nil\n", sfx, op.S, name, op.A, sfx, op.S)
 		case "mkboth":
 			name := fmt.Sprintf("mb%s_%d", sfx, i)
-			fmt.Fprintf(&d, "func %s(a int) (%s, *int) { x := a; return %s, &x }\n", name, ftype, lit(1))
+			fmt.Fprintf(&d, "func %s(a int) (%s, *int) { x := a; %s }\n", name, ftype, addrOf(op.D, "return "+lit(1)+", &x"))
 			fmt.Fprintf(&m, "\tG%s[%d], P%s[%d] = %s(%d)\n", sfx, op.S, sfx, op.S, name, op.A)
 		case "use":
 			if recycled {
@@ -236,6 +257,14 @@ func c06Render(rec *c06Rec, cell c06Cell, raw []byte) *ProgCase {
 		case "rec":
 			recycled = true
 			fmt.Fprintf(&m, "\tev(\"r\", %d, rec%s(%d))\n", op.N, sfx, op.N)
+		case "recarg":
+			recycled = true
+			n := op.N
+			if n > 5 {
+				n = 5 // keep the value small for every result kind (uint8: 5*6/2 + 500 would overflow)
+			}
+			_ = n
+			fmt.Fprintf(&m, "\tev(\"ra\", %d, ra%s(%d))\n", op.N, sfx, op.N)
 		}
 	}
 	fmt.Fprintf(&d, "func main%s() int {\n%s\treturn 0\n}\n", sfx, m.String())
@@ -279,6 +308,10 @@ func c06Render(rec *c06Rec, cell c06Cell, raw []byte) *ProgCase {
 			e := rec.Log[li]
 			li++
 			pc.WantEvents = append(pc.WantEvents, fmt.Sprintf(`string:"r" int:%d int:%d`, num(e[1]), num(e[2])))
+		case "recarg":
+			e := rec.Log[li]
+			li++
+			pc.WantEvents = append(pc.WantEvents, fmt.Sprintf(`string:"ra" int:%d int:%d`, num(e[1]), num(e[2])))
 		case "use":
 			k := kind[op.S]
 			if k == "" {
@@ -369,6 +402,9 @@ func runC06(c *core.Ctx) error {
 		{Hist: []c06Op{{Op: "mk", S: 0, Via: "glob", D: 1, A: 3}, {Op: "burn", N: 33}, {Op: "use", S: 0, P: 2}, {Op: "burn", N: 2}, {Op: "use", S: 0, P: 2}},
 			Log: [][]interface{}{{"u", 0, 5}, {"u", 0, 7}}},
 	}
+	// call sites: the three-argument call re-entered from its own last argument, for every result kind
+	canon = append(canon, c06Rec{Hist: []c06Op{{Op: "mkptr", S: 0, D: 2, A: 4}, {Op: "burn", N: 2}, {Op: "use", S: 0, P: 2}, {Op: "recarg", N: 5}, {Op: "use", S: 0, P: 2}},
+		Log: [][]interface{}{{"p", 0, 4}, {"ra", 5, 515}, {"p", 0, 14}}})
 	if c.Thorough() {
 		canon = append(canon, c06Rec{Hist: []c06Op{{Op: "mk", S: 1, Via: "ret", D: 2, A: 3}, {Op: "rec", N: 40}, {Op: "use", S: 1, P: 2}, {Op: "burn", N: 1}, {Op: "use", S: 1, P: 2}},
 			Log: [][]interface{}{{"r", 40, 40}, {"u", 1, 5}, {"u", 1, 7}}})
